@@ -18,6 +18,7 @@ Open Scope Z_scope.
 Section C07.
   Variables B S V D H T W E : Type.
   Variable kind_of : B -> kind.
+  Variable fees_present : B -> bool.
   Variable expected_calldata : B -> Z -> Z -> V -> list S -> D.
   Variable expected_deploy : B -> D.
   Variable D_eqb : D -> D -> bool.
@@ -31,13 +32,13 @@ Section C07.
   Hypothesis D_eqb_true : forall a b, D_eqb a b = true -> a = b.
   Hypothesis H_eqb_refl : forall h, H_eqb h h = true.
 
-  Notation run := (run B S V D H T W E kind_of expected_calldata expected_deploy D_eqb H_eqb
+  Notation run := (run B S V D H T W E kind_of fees_present expected_calldata expected_deploy D_eqb H_eqb
                      tx_hash tx_data valset_at compass_present apply_effect on_error_proof).
-  Notation step := (step B S V D H T W E kind_of expected_calldata expected_deploy D_eqb H_eqb
+  Notation step := (step B S V D H T W E kind_of fees_present expected_calldata expected_deploy D_eqb H_eqb
                       tx_hash tx_data valset_at compass_present apply_effect on_error_proof).
-  Notation run_from := (run_from B S V D H T W E kind_of expected_calldata expected_deploy D_eqb H_eqb
+  Notation run_from := (run_from B S V D H T W E kind_of fees_present expected_calldata expected_deploy D_eqb H_eqb
                           tx_hash tx_data valset_at compass_present apply_effect on_error_proof).
-  Notation endblock_ids := (endblock_ids B S V D H T W E kind_of expected_calldata expected_deploy D_eqb H_eqb
+  Notation endblock_ids := (endblock_ids B S V D H T W E kind_of fees_present expected_calldata expected_deploy D_eqb H_eqb
                               tx_hash tx_data valset_at compass_present apply_effect on_error_proof).
 
   (** 1. Every committed success follow-up [e] was produced by attestRouter on a message that stood
@@ -66,7 +67,7 @@ Section C07.
               (firstn (e_prefix _ _ _ _ e) (m_sigs _ _ _ (e_msg _ _ _ _ e)))
       end.
   Proof.
-    exact (success_effects_only_if_calldata_matches_and_receipt_ok B S V D H T W E kind_of expected_calldata
+    exact (success_effects_only_if_calldata_matches_and_receipt_ok B S V D H T W E kind_of fees_present expected_calldata
              expected_deploy D_eqb H_eqb tx_hash tx_data valset_at compass_present apply_effect on_error_proof
              D_eqb_true H_eqb_refl).
   Qed.
@@ -76,7 +77,7 @@ Section C07.
   Theorem tx_used_at_most_once : forall w n ops,
     NoDup (map (fun e => tx_hash (e_tx _ _ _ _ e)) (effects _ _ _ _ _ _ (run w n ops))).
   Proof.
-    exact (tx_used_at_most_once B S V D H T W E kind_of expected_calldata expected_deploy D_eqb H_eqb tx_hash
+    exact (tx_used_at_most_once B S V D H T W E kind_of fees_present expected_calldata expected_deploy D_eqb H_eqb tx_hash
              tx_data valset_at compass_present apply_effect on_error_proof H_eqb_refl).
   Qed.
 
@@ -84,7 +85,7 @@ Section C07.
   Theorem effects_at_most_once : forall w n ops,
     NoDup (map (fun e => m_id _ _ _ (e_msg _ _ _ _ e)) (effects _ _ _ _ _ _ (run w n ops))).
   Proof.
-    exact (effects_at_most_once B S V D H T W E kind_of expected_calldata expected_deploy D_eqb H_eqb tx_hash
+    exact (effects_at_most_once B S V D H T W E kind_of fees_present expected_calldata expected_deploy D_eqb H_eqb tx_hash
              tx_data valset_at compass_present apply_effect on_error_proof H_eqb_refl).
   Qed.
 
@@ -97,9 +98,9 @@ Section C07.
     In (tx_hash (e_tx _ _ _ _ e)) (processed _ _ _ _ _ _ (run w n ops)).
   Proof.
     intros w n ops e He. split.
-    - exact (accepted_message_is_gone B S V D H T W E kind_of expected_calldata expected_deploy D_eqb H_eqb tx_hash
+    - exact (accepted_message_is_gone B S V D H T W E kind_of fees_present expected_calldata expected_deploy D_eqb H_eqb tx_hash
                tx_data valset_at compass_present apply_effect on_error_proof H_eqb_refl w n ops e He).
-    - exact (accepted_tx_is_marked B S V D H T W E kind_of expected_calldata expected_deploy D_eqb H_eqb tx_hash
+    - exact (accepted_tx_is_marked B S V D H T W E kind_of fees_present expected_calldata expected_deploy D_eqb H_eqb tx_hash
                tx_data valset_at compass_present apply_effect on_error_proof H_eqb_refl w n ops e He).
   Qed.
 
@@ -124,15 +125,22 @@ Section C07.
   (** 5. Zero collected signatures: no compass call is ever accepted. *)
   Theorem no_signatures_never_verified : forall m vs d,
     kind_of (m_body _ _ _ m) <> KUploadCompass -> m_sigs _ _ _ m = [] ->
-    verify B S V D T kind_of expected_calldata expected_deploy D_eqb m vs d = None.
-  Proof. exact (no_signatures_never_verified B S V D T kind_of expected_calldata expected_deploy D_eqb). Qed.
+    verify B S V D T kind_of fees_present expected_calldata expected_deploy D_eqb m vs d = None.
+  Proof. exact (no_signatures_never_verified B S V D T kind_of fees_present expected_calldata expected_deploy D_eqb). Qed.
 
-  (** 6. The consensus end-blocker loop (CheckAndProcessAttestedMessages) is a run of single
-      attestations, so 1-4 hold for it as well. *)
+  (** 5b. A submit_logic_call / user contract upload whose fees were never set matches no transaction. *)
+  Theorem no_fees_never_verified : forall m vs d,
+    (kind_of (m_body _ _ _ m) = KSubmitLogicCall \/ kind_of (m_body _ _ _ m) = KUploadUser) ->
+    fees_present (m_body _ _ _ m) = false ->
+    verify B S V D T kind_of fees_present expected_calldata expected_deploy D_eqb m vs d = None.
+  Proof. exact (no_fees_never_verified B S V D T kind_of fees_present expected_calldata expected_deploy D_eqb). Qed.
+
+  (** 6. The consensus end-blocker loop (CheckAndProcessAttestedMessages) is exactly the run of the
+      single attestations of the messages it read at its start, so 1-4 hold for it as well. *)
   Theorem endblock_is_a_run_of_attests : forall l s env,
-    exists l', fst (endblock_ids s l env) = run_from s (map (fun i => OpAttest _ _ _ _ _ i (env i)) l').
+    endblock_ids s l env = run_from s (map (fun i => OpAttest _ _ _ _ _ i (env i)) l).
   Proof.
-    exact (endblock_is_a_run_of_attests B S V D H T W E kind_of expected_calldata expected_deploy D_eqb H_eqb tx_hash
+    exact (endblock_is_a_run_of_attests B S V D H T W E kind_of fees_present expected_calldata expected_deploy D_eqb H_eqb tx_hash
              tx_data valset_at compass_present apply_effect on_error_proof).
   Qed.
 End C07.
@@ -161,7 +169,10 @@ Theorem gates_as_modelled :
   (* the processed set only grows and membership is pure key presence, as [processed] / [mem_hash] have it *)
   G.is_tx_processed_consults = "key presence"%string /\
   G.processed_store_users = ["isTxProcessed"; "setTxAsAlreadyProcessed"; "txAlreadyProcessedStore"]%string /\
-  G.processed_store_deleters = [].
+  G.processed_store_deleters = [] /\
+  (* CheckAndProcessAttestedMessages: a failing message is logged and the loop goes on, see [endblock_ids] *)
+  G.endblock_on_attest_error = "continue"%string /\
+  G.nil_fees_not_verified = ["SubmitLogicCall"; "UploadUserSmartContract"]%string.
 Proof. exact AttestSym.gates_as_modelled. Qed.
 
 Print Assumptions success_effects_only_if_calldata_matches_and_receipt_ok.
@@ -170,6 +181,7 @@ Print Assumptions effects_at_most_once.
 Print Assumptions accepted_message_is_gone_and_tx_marked.
 Print Assumptions rejected_tx_changes_only_bookkeeping.
 Print Assumptions no_signatures_never_verified.
+Print Assumptions no_fees_never_verified.
 Print Assumptions endblock_is_a_run_of_attests.
 Print Assumptions packed_covers_action_fields.
 Print Assumptions calldata_match_means_same_call.
